@@ -73,7 +73,7 @@ pub fn read_all_raw(data: &[u8], o: &ReadOpts) -> (Vec<Value>, Option<String>) {
             Ok(Some(Entry::Record(r))) => entries.push(record_json(&r)),
             Ok(Some(Entry::Include { path, origin })) => entries.push(json!({
                 "include": json_bytes(path.as_str().as_bytes()),
-                "origin": origin.map(|n| json_bytes(&name_octets(&n))),
+                "origin": json_bytes(&origin.map(|n| name_octets(&n)).unwrap_or_default()),
             })),
             Ok(None) => return (entries, None),
             Err(e) => return (entries, Some(format!("{}", e))),
@@ -128,4 +128,104 @@ pub fn show(data: &[u8]) -> String {
             _ => format!("\\x{:02x}", b),
         })
         .collect()
+}
+
+// ------------------------------------------------------ presentation (C06)
+use domain::base::iana::Rtype;
+use domain::base::name::{FlattenInto, ParsedName};
+use domain::base::rdata::ParseRecordData;
+use domain::base::zonefile_fmt::{DisplayKind, ZonefileFmt};
+use domain::base::{Record, Ttl};
+use domain::rdata::ZoneRecordData;
+use octseq::Parser;
+
+pub type FlatData = ZoneRecordData<Bytes, Name<Bytes>>;
+pub type FlatRecord = Record<Name<Bytes>, FlatData>;
+
+/// Build a record from uncompressed wire octets (owner name, RDATA).
+pub fn record_from_wire(owner: &[u8], class: u16, ttl: u32, rtype: u16, rdata: &[u8])
+    -> Result<FlatRecord, String>
+{
+    let owner = Name::<Bytes>::from_octets(Bytes::copy_from_slice(owner))
+        .map_err(|e| format!("owner: {}", e))?;
+    let b = Bytes::copy_from_slice(rdata);
+    let mut p = Parser::from_ref(&b);
+    let data = ZoneRecordData::<Bytes, ParsedName<Bytes>>::parse_rdata(Rtype::from_int(rtype), &mut p)
+        .map_err(|e| format!("rdata: {}", e))?
+        .ok_or_else(|| "rdata: type not parsed".to_string())?;
+    if p.remaining() != 0 {
+        return Err("rdata: trailing octets".into());
+    }
+    let data: FlatData = data.flatten_into();
+    Ok(Record::new(owner, Class::from_int(class), Ttl::from_secs(ttl), data))
+}
+
+/// The four ways the library writes a record as text.  None of them ends
+/// the line; a zone file needs the line feed, so it is added here.
+pub fn write_record(r: &FlatRecord, kind: &str) -> String {
+    let mut s = match kind {
+        "simple" => format!("{}", r.display_zonefile(DisplayKind::Simple)),
+        "tabbed" => format!("{}", r.display_zonefile(DisplayKind::Tabbed)),
+        "multiline" => format!("{}", r.display_zonefile(DisplayKind::Multiline)),
+        _ => format!("{}", r),
+    };
+    s.push('\n');
+    s
+}
+
+pub fn flat_record_json(r: &FlatRecord) -> Value {
+    let mut v: Vec<u8> = Vec::new();
+    let _ = r.data().compose_rdata(&mut v);
+    json!({
+        "owner": json_bytes(&name_octets(r.owner())),
+        "class": r.class().to_int(),
+        "ttl": r.ttl().as_secs(),
+        "rtype": r.rtype().to_int(),
+        "rdata": json_bytes(&v),
+    })
+}
+
+/// Read `text` and compare with `r`: "eq" when exactly one record comes back
+/// that the library itself considers equal (name equality is
+/// case-insensitive; class, TTL, type and data must match), otherwise the raw
+/// outcome so that a deviation's predicted misreading can be matched.
+pub fn read_back(r: &FlatRecord, text: &[u8], origin: Option<&[u8]>) -> Value {
+    let mut zone = Zonefile::from(text);
+    if let Some(w) = origin {
+        zone.set_origin(Name::<Bytes>::from_octets(Bytes::copy_from_slice(w)).expect("origin"));
+    }
+    let mut recs: Vec<ScannedRecord> = vec![];
+    let mut other = 0;
+    let mut err = false;
+    for _ in 0..text.len() + 3 {
+        match zone.next_entry() {
+            Ok(Some(Entry::Record(x))) => recs.push(x),
+            Ok(Some(_)) => other += 1,
+            Ok(None) => break,
+            Err(_) => { err = true; break; }
+        }
+    }
+    if !err && other == 0 && recs.len() == 1 {
+        let x = &recs[0];
+        // Record == compares owner (case-insensitively), class and data; TTL separately
+        let same = x.owner().name_eq(r.owner())
+            && x.class() == r.class()
+            && x.ttl() == r.ttl()
+            && x.rtype() == r.rtype()
+            && rdata_equal(x, r);
+        if same {
+            return json!("eq");
+        }
+    }
+    let _ = (recs, other, err);
+    read_all(text, &ReadOpts { origin, default_class: None, allow_invalid: false })
+}
+
+/// Data equality: the library's own PartialEq across name types where it is
+/// available is what "equal record" means; the composed RDATA octets are
+/// compared in addition as the canonical-independent ground truth for types
+/// without embedded names.
+fn rdata_equal(x: &ScannedRecord, r: &FlatRecord) -> bool {
+    let y: FlatData = x.data().clone().flatten_into();
+    y == *r.data()
 }
